@@ -342,3 +342,52 @@ Qed.
 
 Lemma lookup_tl_ne : forall l x, lookup_scopes x (tl l) <> None -> lookup_scopes x l <> None.
 Proof. intros [|sc l] x H; [exact H|]. cbn [tl lookup_scopes] in *. destruct (assoc x sc); [discriminate|exact H]. Qed.
+
+(* ================================================================ pinned VM cells *)
+(* a VM cell that belongs to no source variable and must keep its value (the end register of a `from` loop) *)
+Definition pin_ok_ (l : list scope) (fs : list frame) (cs : list value) (p : N * value) : Prop :=
+  nth_error cs (N.to_nat (fst p)) = Some (snd p) /\ forall c, ~ pairs l fs c (fst p).
+
+Lemma pins_update_ : forall pins l fs cs c c' w, Forall (pin_ok_ l fs cs) pins -> pairs l fs c c' ->
+  Forall (pin_ok_ l fs (set_nth (N.to_nat c') w cs)) pins.
+Proof.
+  intros pins l fs cs c c' w H Hp. eapply Forall_impl; [|exact H]. intros [cy w0] [H1 H2]; unfold pin_ok_; cbn [fst snd] in *. split; [|exact H2].
+  rewrite nth_error_set_nth_other; [exact H1|]. intros E. apply N2Nat.inj in E. subst cy. exact (H2 c Hp).
+Qed.
+
+Lemma pins_mono_ : forall pins l fs cs extra, Forall (pin_ok_ l fs cs) pins -> Forall (pin_ok_ l fs (cs ++ extra)) pins.
+Proof.
+  intros pins l fs cs extra H. eapply Forall_impl; [|exact H]. intros [cy w0] [H1 H2]; unfold pin_ok_; cbn [fst snd] in *. split; [|exact H2].
+  rewrite nth_error_app1; [exact H1|]. apply nth_error_Some. congruence.
+Qed.
+
+Lemma pins_declare_ : forall pins sc l f fs cs x cn w, Forall (pin_ok_ (sc :: l) (f :: fs) cs) pins ->
+  Forall (pin_ok_ (assoc_set x cn sc :: l) ({| lab := lab f; vars := assoc_set x (N.of_nat (length cs)) (vars f) |} :: fs)
+                  (cs ++ [w])) pins.
+Proof.
+  intros pins sc l f fs cs x cn w H. eapply Forall_impl; [|exact H]. intros [cy w0] [H1 H2]; unfold pin_ok_; cbn [fst snd] in *. split.
+  - rewrite nth_error_app1; [exact H1|]. apply nth_error_Some. congruence.
+  - intros c0 Hp. apply pairs_declare in Hp. destruct Hp as [[_ E]|Hp]; [|exact (H2 c0 Hp)].
+    subst cy. rewrite Nnat.Nat2N.id in H1. assert (length cs < length cs) by (apply nth_error_Some; congruence). lia.
+Qed.
+
+Lemma pins_push_ : forall pins l fs cs lb, Forall (pin_ok_ l fs cs) pins -> special lb = true ->
+  Forall (pin_ok_ ([] :: l) ({| lab := lb; vars := [] |} :: fs) cs) pins.
+Proof.
+  intros pins l fs cs lb H Hs. eapply Forall_impl; [|exact H]. intros [cy w0] [H1 H2]. split; [exact H1|].
+  intros c0 Hp. apply pairs_push in Hp; [|exact Hs]. exact (H2 c0 Hp).
+Qed.
+
+Lemma pins_pop_ : forall pins sc l f fs cs, Forall (pin_ok_ (sc :: l) (f :: fs) cs) pins -> Forall (pin_ok_ l fs cs) pins.
+Proof.
+  intros pins sc l f fs cs H. eapply Forall_impl; [|exact H]. intros [cy w0] [H1 H2]. split; [exact H1|].
+  intros c0 Hp. apply (H2 c0). cbn [pairs]. right. exact Hp.
+Qed.
+
+Lemma pins_top_ : forall pins l f f' fs cs, Forall (pin_ok_ l (f :: fs) cs) pins ->
+  (forall x, uname x -> find_in_function x (f' :: fs) = find_in_function x (f :: fs)) ->
+  Forall (pin_ok_ l (f' :: fs) cs) pins.
+Proof.
+  intros pins l f f' fs cs H Hfind. eapply Forall_impl; [|exact H]. intros [cy w0] [H1 H2]. split; [exact H1|].
+  intros c0 Hp. apply (H2 c0). eapply pairs_top; [|exact Hp]. intros x Hx. symmetry. now apply Hfind.
+Qed.
